@@ -17,7 +17,12 @@
 (*   Len / Size -> the number;  NF = not found / false, ERR = the call     *)
 (*   returned an error, BLOCKED = the call is parked on the cache mutex    *)
 (*   and nobody will ever release it, PANIC = the call panicked.           *)
-(*   act = [op, t, k, v, step, call, ret, res, rr]                         *)
+(*   act = [op, t, k, v, step, call, ret, res, rr, w, wret, wres]          *)
+(*     res = WAIT with ret = 0: the call is parked on the mutex, which a   *)
+(*               call inside its locked section holds (not a result).      *)
+(*     w # 0: in this step thread w, which was waiting for the mutex, got  *)
+(*               it; wret = 1: its call returned in this step (after the   *)
+(*               return of thread t, if any) with result wres.             *)
 (*     call = 1: the operation is invoked in this step,                    *)
 (*     ret  = 1: it returns in this step with result res (rr = result of   *)
 (*               Range: sequence over keys of the value, 0 = absent).      *)
@@ -43,6 +48,7 @@ EXTENDS Integers, Sequences, FiniteSets
 NF      == -1
 ERR     == -3
 BLOCKED == -7
+WAIT    == -5
 PANIC   == -9
 NA      == -999
 NOTMULT == -888
@@ -127,6 +133,14 @@ Closure(cfgs, env) == Close({}, cfgs, env)
 
 Pend(cfgs) == IF cfgs = {} THEN {} ELSE {q.t : q \in (CHOOSE c \in cfgs : TRUE).p}
 
+\* Thread t returns res / rr: the configurations in which its call took effect
+\* with exactly this result (all of them, and bad, if there is none).
+RetApply(cs, t, res, rr, env) ==
+  LET cl == Closure(cs, env)
+      m  == {c \in cl : \E q \in c.p : q.t = t /\ q.st = 2 /\ q.res = res /\ q.rr = rr}
+  IN  [cfgs |-> {[c EXCEPT !.p = {q \in @ : q.t # t}] : c \in (IF m = {} THEN cl ELSE m)},
+       bad  |-> m = {}]
+
 AbsInitOf(l) == [cfgs |-> {[l |-> l, p |-> {}]}, bad |-> {}, failed |-> 0, v |-> {}]
 AbsInit == AbsInitOf(<<>>)
 
@@ -156,15 +170,14 @@ AbsNext(a, act, o2) ==
               THEN {[c EXCEPT !.p = @ \cup {[t |-> act.t, op |-> act.op, k |-> act.k, v |-> act.v,
                                             st |-> 1, res |-> 0, rr |-> <<>>]}] : c \in c0}
               ELSE c0
-      \* 2. response
+      \* 2. response(s): of thread t, then of a thread that got the mutex in this step
       isret == act.ret = 1 /\ act.res # BLOCKED
-      cl   == IF isret THEN Closure(c1, env1) ELSE c1
-      m    == {c \in cl : \E q \in c.p : q.t = act.t /\ q.st = 2 /\ q.res = act.res /\ q.rr = act.rr}
-      linbad == isret /\ m = {}
-      c2   == IF isret
-              THEN {[c EXCEPT !.p = {q \in @ : q.t # act.t}] : c \in (IF m = {} THEN cl ELSE m)}
-              ELSE c1
-      failed2 == IF act.ret = 1 /\ act.res = ERR THEN 1 ELSE a.failed
+      r1   == IF isret THEN RetApply(c1, act.t, act.res, act.rr, env1) ELSE [cfgs |-> c1, bad |-> FALSE]
+      r2   == IF act.wret = 1 THEN RetApply(r1.cfgs, act.w, act.wres, <<>>, env1)
+              ELSE [cfgs |-> r1.cfgs, bad |-> FALSE]
+      linbad == r1.bad \/ r2.bad
+      c2   == r2.cfgs
+      failed2 == IF (act.ret = 1 /\ act.res = ERR) \/ (act.wret = 1 /\ act.wres = ERR) THEN 1 ELSE a.failed
       \* 3. a quiescent snapshot must be the state of some configuration
       quiet == Pend(c2) = {} /\ o2.free = 1
       ms   == {c \in c2 : c.l = o2.filo}
